@@ -337,9 +337,11 @@ pub fn strat_strategy() -> impl Strategy<Value = Strat> {
 /// types look like), zero included.
 pub fn shape_strategy() -> impl Strategy<Value = (usize, usize)> {
     (0usize..5, prop_oneof![
-        6 => 0usize..=6,
-        1 => 7usize..=12,
-        1 => Just(0usize),
+        30 => 0usize..=6,
+        5 => 7usize..=12,
+        3 => 13usize..=40,
+        1 => 41usize..=600,
+        5 => Just(0usize),
     ])
         .prop_map(|(a, k)| {
             let align = 1usize << a;
@@ -367,7 +369,13 @@ pub fn history_strategy(max_len: usize) -> BoxedStrategy<History> {
         prop::collection::vec(req_strategy(Just(s).boxed()), 0..max_len)
             .prop_map(move |reqs| History { reqs, final_strat: s })
     });
-    prop_oneof![7 => mixed, 3 => mono].boxed()
+    // long histories (many variants, many data): 1 case in 12
+    let long = (
+        prop::collection::vec(req_strategy(strat_strategy().boxed()), max_len..4 * max_len),
+        strat_strategy(),
+    )
+        .prop_map(|(reqs, final_strat)| History { reqs, final_strat });
+    prop_oneof![15 => mixed, 7 => mono, 2 => long].boxed()
 }
 
 // ---------------------------------------------------------------------------------------------
